@@ -80,6 +80,19 @@ func TestBoundedC11(t *testing.T) {
 		}
 	}
 	rng := rand.New(rand.NewSource(seed))
+	// the 7 type-prefix bytes of registered concrete types: swapped for one another inside mutants
+	var prefixes [][]byte
+	{
+		var ev Evidence = dve
+		var pub crypto.PubKey = pk.PubKey()
+		var prv crypto.PrivKey = pk
+		var sg crypto.Signature = sig
+		for _, iv := range []interface{}{&ev, &pub, &prv, &sg} {
+			if b, err := ser.EncodeToBytesWithType(iv); err == nil && len(b) >= 7 {
+				prefixes = append(prefixes, b[:7])
+			}
+		}
+	}
 	for _, s := range samples {
 		bz, err := ser.EncodeToBytes(s.in)
 		if err != nil {
@@ -105,7 +118,22 @@ func TestBoundedC11(t *testing.T) {
 		cases++
 		for m := 0; m < muts; m++ {
 			mb := append([]byte(nil), bz...)
-			switch rng.Intn(5) {
+			switch rng.Intn(6) {
+			case 5:
+				// replace an occurrence of one registered type prefix by another one
+				var at []int
+				for _, p := range prefixes {
+					for i := 0; i+7 <= len(mb); i++ {
+						if bytes.Equal(mb[i:i+7], p) {
+							at = append(at, i)
+						}
+					}
+				}
+				if len(at) == 0 || len(prefixes) < 2 {
+					mb[rng.Intn(len(mb))] ^= 0x80
+				} else {
+					copy(mb[at[rng.Intn(len(at))]:], prefixes[rng.Intn(len(prefixes))])
+				}
 			case 0:
 				mb[rng.Intn(len(mb))] ^= byte(1 << uint(rng.Intn(8)))
 			case 1:
@@ -222,7 +250,7 @@ func TestBoundedC11(t *testing.T) {
 			fail("sweep n=%d: re-encoding differs", n)
 		}
 	}
-	fmt.Printf("BOUNDED-CASES: %d decodings (%d sample values of consensus/storage types, %d seeded mutants each: bit flips, truncations, byte replacements, injected long-form headers, random tails), %d failures\n", cases, len(samples), muts, nfail)
+	fmt.Printf("BOUNDED-CASES: %d decodings (%d sample values of consensus/storage types, %d seeded mutants each: bit flips, truncations, byte replacements, swapped registered type prefixes, injected long-form headers, random tails), %d failures\n", cases, len(samples), muts, nfail)
 	if nfail > 0 {
 		t.Fatalf("%d failures", nfail)
 	}
